@@ -3,6 +3,8 @@
 use crate::arc::*;
 use crate::engine::*;
 use crate::gen::*;
+use crate::mesh::MeshSpec;
+use rs_opw_kinematics::kinematic_traits::Kinematics;
 use crate::model::TWO_PI;
 use crate::props::c10::in_pool;
 use crate::scene::*;
@@ -25,6 +27,80 @@ pub struct Case {
 
 fn key(v: &[f64; 6]) -> [u64; 6] {
     std::array::from_fn(|k| v[k].to_bits())
+}
+
+/// One round: the offered set of `robot` against the twelve candidates filtered by oracle A and the robot's own full collision check.
+/// Ok(None) = undecided (a candidate inside the guard band); Ok(Some((expected, rejected for collision, rejected by limits))).
+fn round(c: &Case, robot: &rs_opw_kinematics::kinematics_with_shape::KinematicsWithShape, pools: &[usize], when: &str) -> Result<Option<(Vec<[f64; 6]>, u64, u64)>, Violation> {
+        // expected multiset
+        let mut expect: Vec<[f64; 6]> = Vec::new();
+        let mut rejected_collision = 0;
+        let mut rejected_limits = 0;
+        let mut undecided = false;
+        for k in 0..6 {
+            for target in [&c.from, &c.to] {
+                let mut v = c.initial;
+                v[k] = target[k];
+                if let Some(l) = &c.scene.limits {
+                    match arc_member6(&l.from, &l.to, &v, 1e-9) {
+                        Verdict::Out => {
+                            rejected_limits += 1;
+                            continue;
+                        }
+                        Verdict::Undecided => {
+                            undecided = true;
+                            continue;
+                        }
+                        Verdict::In => {}
+                    }
+                }
+                let col = no_panic(|| robot.collides(&v)).map_err(|m| viol!("no panic", "collides: {}", m))?;
+                if col {
+                    rejected_collision += 1;
+                } else {
+                    expect.push(v);
+                }
+            }
+        }
+        if undecided {
+            return Ok(None);
+        }
+        let mut want: Vec<[u64; 6]> = expect.iter().map(key).collect();
+        want.sort();
+        // compared as sets: whether a configuration that arises twice (from[k] == to[k], or a value equal to the initial one) is offered once or twice is not part of the statement
+        want.dedup();
+        let mut first: Option<Vec<[u64; 6]>> = None;
+        for &threads in pools {
+            let got = in_pool(threads, || no_panic(|| robot.non_colliding_offsets(&c.initial, &c.from, &c.to))).map_err(|m| viol!("no panic", "non_colliding_offsets: {}", m))?;
+            let mut g: Vec<[u64; 6]> = got.iter().map(key).collect();
+            g.sort();
+            g.dedup();
+            ensure!(got.len() <= 12, "at most twelve neighbour configurations are offered", "[{} threads] {} offered", threads, got.len());
+            if g != want {
+                // describe the difference
+                let offered_colliding: Vec<&[f64; 6]> = got.iter().filter(|v| robot.collides(v)).collect();
+                let withheld: Vec<&[f64; 6]> = expect.iter().filter(|v| !got.iter().any(|x| key(x) == key(v))).collect();
+                let details: Vec<String> = offered_colliding.iter().map(|v| format!("{:?} collides: {:?}", v, robot.near(v, &{ let mut s = c.scene.safety.clone(); s.mode = 1; s.build() }).iter().map(crate::props::c10::pair_name).collect::<Vec<_>>())).collect();
+                return Err(viol!(
+                    "the neighbour configurations offered are exactly the legal single-joint replacements that the full collision check reports free",
+                    "{} [{} threads] offered {} expected {}; offered although colliding: {}; free and legal but withheld: {:?}; initial {:?} from {:?} to {:?}",
+                    when,
+                    threads,
+                    got.len(),
+                    expect.len(),
+                    details.join(" | "),
+                    withheld,
+                    c.initial,
+                    c.from,
+                    c.to
+                ));
+            }
+            match &first {
+                None => first = Some(g),
+                Some(f) => ensure!(*f == g, "the offered set does not depend on the pool size", "differs with {} threads", threads),
+            }
+        }
+    Ok(Some((expect, rejected_collision, rejected_limits)))
 }
 
 impl Property for C14 {
@@ -108,7 +184,7 @@ impl Property for C14 {
             ctx.exclude("ambiguous safety table");
             return Ok(());
         }
-        let built = c.scene.build(&c.initial);
+        let mut built = c.scene.build(&c.initial);
         let robot = &built.robot;
         let init_col = no_panic(|| robot.collides(&c.initial)).map_err(|m| viol!("no panic", "collides: {}", m))?;
         if init_col {
@@ -121,74 +197,43 @@ impl Property for C14 {
                 return Ok(());
             }
         }
-        // expected multiset
-        let mut expect: Vec<[f64; 6]> = Vec::new();
-        let mut rejected_collision = 0;
-        let mut rejected_limits = 0;
-        let mut undecided = false;
-        for k in 0..6 {
-            for target in [&c.from, &c.to] {
-                let mut v = c.initial;
-                v[k] = target[k];
-                if let Some(l) = &c.scene.limits {
-                    match arc_member6(&l.from, &l.to, &v, 1e-9) {
-                        Verdict::Out => {
-                            rejected_limits += 1;
-                            continue;
-                        }
-                        Verdict::Undecided => {
-                            undecided = true;
-                            continue;
-                        }
-                        Verdict::In => {}
+        let (expect, rejected_collision, rejected_limits) = match round(c, robot, &[1usize, 3, 4, 16], "")? {
+            Some(x) => x,
+            None => {
+                ctx.exclude("a candidate sits inside the guard band of a limit");
+                return Ok(());
+            }
+        };
+        // history: the cell changes between two calls on the same robot (body, environment and safety table are public fields). An obstacle is put
+        // where the tool / last link of one offered neighbour is; the offered set must again be what the full check lets through now; then the
+        // obstacle is taken away again and the first answer must come back.
+        let p0 = robot.forward_with_joint_poses(&c.initial)[5].translation.vector;
+        let far = expect.iter().map(|v| (*v, (robot.forward_with_joint_poses(v)[5].translation.vector - p0).norm())).fold(None, |b: Option<([f64; 6], f64)>, x| match b {
+            Some(y) if y.1 >= x.1 => Some(y),
+            _ => Some(x),
+        });
+        if let Some((v0, _)) = far {
+            let at = robot.forward_with_joint_poses(&v0)[5];
+            let m = MeshSpec { lo: [-0.04, -0.04, -0.04], hi: [0.04, 0.04, 0.04], fan: 0 };
+            built.robot.body.collision_environment.push(rs_opw_kinematics::collisions::CollisionBody { mesh: m.trimesh(), pose: at.cast::<f32>() });
+            // (the helper is documented for a collision-free initial vector: the history is followed only when the initial posture stays free)
+            if no_panic(|| built.robot.collides(&c.initial)).map_err(|m| viol!("no panic", "collides: {}", m))? {
+                built.robot.body.collision_environment.pop();
+                ctx.class("history:not followed (the added obstacle touches the initial posture)");
+            } else {
+                let second = round(c, &built.robot, &[2usize], "after an obstacle was added to robot.body.collision_environment")?;
+                built.robot.body.collision_environment.pop();
+                let third = round(c, &built.robot, &[2usize], "after the obstacle was removed again")?;
+                if let (Some(s2), Some(s3)) = (second, third) {
+                    ctx.class("history:obstacle added and removed between calls");
+                    if s2.0.len() < expect.len() {
+                        ctx.class("history:the obstacle removes a previously offered neighbour");
                     }
-                }
-                let col = no_panic(|| robot.collides(&v)).map_err(|m| viol!("no panic", "collides: {}", m))?;
-                if col {
-                    rejected_collision += 1;
-                } else {
-                    expect.push(v);
+                    ensure!(s3.0.len() == expect.len(), "the offered set is a function of the present cell", "{} offered after the obstacle was removed, {} before it was added", s3.0.len(), expect.len());
                 }
             }
         }
-        if undecided {
-            ctx.exclude("a candidate sits inside the guard band of a limit");
-            return Ok(());
-        }
-        let mut want: Vec<[u64; 6]> = expect.iter().map(key).collect();
-        want.sort();
-        // compared as sets: whether a configuration that arises twice (from[k] == to[k], or a value equal to the initial one) is offered once or twice is not part of the statement
-        want.dedup();
-        let mut first: Option<Vec<[u64; 6]>> = None;
-        for threads in [1usize, 3, 4, 16] {
-            let got = in_pool(threads, || no_panic(|| robot.non_colliding_offsets(&c.initial, &c.from, &c.to))).map_err(|m| viol!("no panic", "non_colliding_offsets: {}", m))?;
-            let mut g: Vec<[u64; 6]> = got.iter().map(key).collect();
-            g.sort();
-            g.dedup();
-            ensure!(got.len() <= 12, "at most twelve neighbour configurations are offered", "[{} threads] {} offered", threads, got.len());
-            if g != want {
-                // describe the difference
-                let offered_colliding: Vec<&[f64; 6]> = got.iter().filter(|v| robot.collides(v)).collect();
-                let withheld: Vec<&[f64; 6]> = expect.iter().filter(|v| !got.iter().any(|x| key(x) == key(v))).collect();
-                let details: Vec<String> = offered_colliding.iter().map(|v| format!("{:?} collides: {:?}", v, robot.near(v, &{ let mut s = c.scene.safety.clone(); s.mode = 1; s.build() }).iter().map(crate::props::c10::pair_name).collect::<Vec<_>>())).collect();
-                return Err(viol!(
-                    "the neighbour configurations offered are exactly the legal single-joint replacements that the full collision check reports free",
-                    "[{} threads] offered {} expected {}; offered although colliding: {}; free and legal but withheld: {:?}; initial {:?} from {:?} to {:?}",
-                    threads,
-                    got.len(),
-                    expect.len(),
-                    details.join(" | "),
-                    withheld,
-                    c.initial,
-                    c.from,
-                    c.to
-                ));
-            }
-            match &first {
-                None => first = Some(g),
-                Some(f) => ensure!(*f == g, "the offered set does not depend on the pool size", "differs with {} threads", threads),
-            }
-        }
+        let robot = &built.robot;
         ctx.class_n("candidates:offered", expect.len() as u64);
         ctx.class_n("candidates:rejected-collision", rejected_collision);
         ctx.class_n("candidates:rejected-limits", rejected_limits);
